@@ -291,7 +291,7 @@ def recognise(tree, text):
             else:
                 return None
         elif name == "TAG":
-            val = "rc" if raw == "preview" else raw
+            val = raw  # ("preview" is an accepted spelling of its own: it is carried over like any other tag, and reads as rc under PEP 440)
         elif name == "PYTAG":
             val = TAG_OF_PYTAG[raw]
         elif kind == "bid":
